@@ -37,12 +37,15 @@ def generate(rng, tier="quick"):
         else:
             nd["idA"], nd["idB"] = ida.hex(), idb.hex()
         return nd
-    nodes = [mk(cls, ent), mk(cls, ent), mk(cls, ent), mk(peer_cls, gen.gen_entropy(rng, gspec, 0.1))]
+    # sometimes the peer draws from the same (stuck / shared) RNG stream as R: same secret scalar
+    same_rng = rng.random() < 0.15
+    nodes = [mk(cls, ent), mk(cls, ent), mk(cls, ent),
+             mk(peer_cls, ent if same_rng else gen.gen_entropy(rng, gspec, 0.1))]
     k = rng.choice([0, 1, 1, 1, 2, 2, 3, 4, 6])
     # process-level restarts: R lives in its own simulated process (host 0), possibly next to a
     # neighbour session of the OTHER class family that shares the parameter-set object; a
     # restart kills the process, and only the blobs survive - no module-level state does
-    procs = rng.random() < 0.2 and gspec["kind"] in gen.CHEAP_TO_REIMPORT and k > 0
+    procs = rng.random() < 0.12 and gspec["kind"] in gen.CHEAP_TO_REIMPORT and k > 0
     W = []
     if procs:
         nodes[0]["host"], nodes[1]["host"], nodes[2]["host"], nodes[3]["host"] = 0, 1, 1, 2
@@ -74,6 +77,8 @@ def generate(rng, tier="quick"):
     U = [{"op": "boot", "n": 1}, {"op": "start", "n": 1}] + [{"op": "serialize", "n": 1}] * rng.choice([1, 1, 2, 3])
     T = [{"op": "boot", "n": 2}, {"op": "start", "n": 2}]
     P = [{"op": "boot", "n": 3}, {"op": "start", "n": 3}]
+    if same_rng or rng.random() < 0.1:
+        P += [{"op": "persist", "n": 3}, {"op": "crash", "n": 3}, {"op": "recover", "n": 3}]
     steps = gen.interleave(rng, [R, U, T, P])
     kind = rng.choice(INBOUND)
     if kind == "valid":
